@@ -416,9 +416,23 @@ def to_iter(it, v):
     raise Unrecognised("not iterable: %r" % (v,))
 
 
-@model("std::iter::IntoIterator::into_iter", doc="finite iterator over known items")
+@model("std::iter::IntoIterator::into_iter", "<std::vec::Vec<T, A> as std::iter::IntoIterator>::into_iter",
+       "<std::option::Option<T> as std::iter::IntoIterator>::into_iter", "<[T; N] as std::iter::IntoIterator>::into_iter",
+       "std::iter::Iterator::chain", doc="finite iterator over known items")
 def into_iter(it, args, n, f):
+    if len(args) == 2:      # chain
+        return IterV(to_iter(it, args[0]).items + to_iter(it, args[1]).items)
     return to_iter(it, args[0])
+
+
+@model("std::iter::Iterator::rev", doc="reversed finite iterator")
+def iter_rev(it, args, n, f):
+    return IterV(list(reversed(to_iter(it, args[0]).items)))
+
+
+@model("std::iter::once", doc="one item")
+def iter_once(it, args, n, f):
+    return IterV([args[0]])
 
 
 @model("std::iter::Iterator::map", doc="apply the function to every item, in order")
@@ -641,6 +655,10 @@ def ord_cmp(it, args, n, f):
     r = it.force(deref(it, args[1]))
     lt = it.prefix_cmp("Lt", l, r)
     if lt is None:
+        if isinstance(l, SymV) and isinstance(r, SymV):
+            # scalars the relation oracle says nothing about (e.g. representations with host bits): any ordering
+            vn = it.choose("cmp:%s|%s" % (l.name, r.name), ["Less", "Equal", "Greater"])
+            return StructV(ORDERING, vn, {})
         raise Unrecognised("cmp of %r, %r" % (l, r))
     if lt.b:
         return StructV(ORDERING, "Less", {})
@@ -652,10 +670,7 @@ def ord_cmp(it, args, n, f):
 def partial_lt(it, args, n, f):
     l = it.force(deref(it, args[0]))
     r = it.force(deref(it, args[1]))
-    res = it.prefix_cmp("Lt", l, r)
-    if res is None:
-        raise Unrecognised("lt of %r, %r" % (l, r))
-    return res
+    return it.binop("Lt", l, r, n)
 
 
 # ------------------------------------------------------------------ further std idioms (kept small; one reason each)
